@@ -35,6 +35,21 @@ enum Shape {
     EmbNone,
 }
 
+/// number of padding fields of a "fat" value (every one carries the write id); fat values make
+/// the individual steps of a put (entity index, slabs, metadata) take long enough for other
+/// threads' reads to fall between them
+const FAT_FIELDS: usize = 2_500;
+
+fn make_value_fat(wid: u64, shape: Shape, fat: bool) -> TensorData {
+    let mut d = make_value(wid, shape);
+    if fat {
+        for i in 0..FAT_FIELDS {
+            d.set(format!("p{}", i), TensorValue::Scalar(ScalarValue::Int(wid as i64)));
+        }
+    }
+    d
+}
+
 fn make_value(wid: u64, shape: Shape) -> TensorData {
     let mut d = TensorData::new();
     d.set("_wid", TensorValue::Scalar(ScalarValue::Int(wid as i64)));
@@ -87,10 +102,19 @@ fn decode_value(d: &TensorData) -> Result<u64, String> {
         (None, _) => return Err(format!("write {} stored an _embedding but the read has none", wid)),
         (Some(_), _) => return Err("unexpected _embedding type".into()),
     }
+    let mut pads = 0usize;
     for k in d.keys() {
-        if !["_wid", "a", "b", "_embedding"].contains(&k.as_str()) {
+        if k.starts_with('p') && k.len() > 1 {
+            match d.get(k) {
+                Some(TensorValue::Scalar(ScalarValue::Int(w))) if *w as u64 == wid => pads += 1,
+                other => return Err(format!("padding field {} = {:?} but _wid = {}", k, other, wid)),
+            }
+        } else if !["_wid", "a", "b", "_embedding"].contains(&k.as_str()) {
             return Err(format!("unexpected field {}", k));
         }
+    }
+    if pads != 0 && pads != FAT_FIELDS {
+        return Err(format!("{} of {} padding fields of write {}", pads, FAT_FIELDS, wid));
     }
     Ok(wid)
 }
@@ -127,6 +151,8 @@ struct RoundCfg {
     ops_per_thread: usize,
     durable: Option<&'static str>,
     jitter: bool,
+    /// values carry FAT_FIELDS padding fields
+    fat: bool,
 }
 
 fn gen_round(rng: &mut Rng) -> RoundCfg {
@@ -138,7 +164,8 @@ fn gen_round(rng: &mut Rng) -> RoundCfg {
         1 => Some("immediate"),
         _ => None,
     };
-    RoundCfg { keys, threads: 2 + rng.below(7), ops_per_thread: 6 + rng.below(14), durable, jitter: rng.bool() }
+    let fat = durable.is_none() && rng.chance(1, 6);
+    RoundCfg { keys, threads: 2 + rng.below(7), ops_per_thread: 6 + rng.below(14), durable, jitter: rng.bool(), fat }
 }
 
 fn shapes_for(key: &str, rng: &mut Rng) -> Shape {
@@ -161,6 +188,7 @@ fn run_threads(store: &Arc<TensorStore>, cfg: &RoundCfg, seed: u64, snap: Option
     let keys = Arc::new(cfg.keys.clone());
     let durable = cfg.durable.is_some();
     let jitter = cfg.jitter;
+    let fat = cfg.fat;
     let n_ops = cfg.ops_per_thread;
     let handles: Vec<_> = (0..cfg.threads)
         .map(|t| {
@@ -196,7 +224,7 @@ fn run_threads(store: &Arc<TensorStore>, cfg: &RoundCfg, seed: u64, snap: Option
                             ctr += 1;
                             let shape = shapes_for(key, &mut rng);
                             let wid = wid_for(t, ctr, shape);
-                            let val = make_value(wid, shape);
+                            let val = make_value_fat(wid, shape, fat);
                             let inv = clock.fetch_add(1, Ordering::SeqCst);
                             let r = if durable { store.put_durable(key.clone(), val) } else { store.put(key.clone(), val) };
                             let res = clock.fetch_add(1, Ordering::SeqCst);
@@ -551,10 +579,13 @@ fn sequential_round(case_seed: u64, r: &mut Report) {
 fn fresh_keys_round(case_seed: u64, r: &mut Report) {
     let mut rng = Rng::new(case_seed);
     let threads = 3 + rng.below(6);
-    let per_thread = 4 + rng.below(12);
-    let store = Arc::new(TensorStore::new());
+    // half of the rounds run on a store with a (deliberately small) Bloom filter: point reads
+    // consult it first, and concurrent puts of different keys update shared filter words
+    let bloom = rng.bool();
+    let per_thread = if bloom { 40 + rng.below(80) } else { 4 + rng.below(12) };
+    let store = Arc::new(if bloom { TensorStore::with_bloom_filter(64 + rng.below(2_000), 0.01) } else { TensorStore::new() });
     let barrier = Arc::new(Barrier::new(threads));
-    let classes = ["emb:", "emb:", "emb:", "k:", "node:"];
+    let classes: &[&str] = if bloom { &["k:", "k:", "node:", "emb:"] } else { &["emb:", "emb:", "emb:", "k:", "node:"] };
     let handles: Vec<_> = (0..threads)
         .map(|t| {
             let (store, barrier) = (store.clone(), barrier.clone());
@@ -563,7 +594,7 @@ fn fresh_keys_round(case_seed: u64, r: &mut Report) {
                 let mut written: Vec<(String, u64)> = Vec::new();
                 let plan: Vec<(String, Shape)> = (0..per_thread)
                     .map(|i| {
-                        let class = *rng.pick(&classes);
+                        let class = *rng.pick(classes);
                         let key = format!("{}f{}_{}", class, t, i);
                         let shape = if class == "emb:" { *rng.pick(&[Shape::EmbSlab, Shape::EmbSlab, Shape::EmbOther]) } else { Shape::Plain };
                         (key, shape)
@@ -587,11 +618,14 @@ fn fresh_keys_round(case_seed: u64, r: &mut Report) {
     let replay = json!({"part": "fresh", "case_seed": case_seed});
     for (key, wid) in &all {
         r.count("fresh_keys_read_back", 1);
+        if bloom {
+            r.count("fresh_keys_read_back_through_bloom_filter", 1);
+        }
         match store.get(key).map(|d| decode_value(&d)) {
             Ok(Ok(w)) if w == *wid => {}
             other => {
                 r.violation(
-                    if key.starts_with("emb:") { "fresh-keys:key-does-not-hold-its-only-write:emb-key" } else { "fresh-keys:key-does-not-hold-its-only-write" },
+                    if bloom { "fresh-keys:key-does-not-hold-its-only-write:bloom-filter-store" } else if key.starts_with("emb:") { "fresh-keys:key-does-not-hold-its-only-write:emb-key" } else { "fresh-keys:key-does-not-hold-its-only-write" },
                     format!("{} threads each created {} new keys at once; at quiescence get({}) = {:?}, but its only write was {}", threads, per_thread, key, other.map(|x| x.map_err(|e| trunc(&e, 200))).map_err(|_| "NotFound"), wid),
                     replay.clone(),
                 );
@@ -715,6 +749,131 @@ fn bigscan_round(case_seed: u64, r: &mut Report) {
     r.eval(hash_combine(case_seed, scans_total ^ 0xB165), true);
 }
 
+/// Different read operations must agree on whether a key is there. One writer alternates
+/// put (often a fat value, so that the steps of the put are far apart) and delete on one key;
+/// observers read the key's presence through scan / exists / get in sequence. With the writer's
+/// calls counted before invocation and after return, two consecutive reads of one observer may
+/// only differ if a write that can explain the change overlapped or fell between them.
+fn visibility_round(case_seed: u64, r: &mut Report) {
+    use std::sync::atomic::{AtomicBool, AtomicU64, Ordering as AO};
+    let mut rng = Rng::new(case_seed);
+    let class = *rng.pick(&["emb:", "emb:", "emb:", "k:", "node:", "_cache:"]);
+    let key = format!("{}v0", class);
+    let fat = rng.chance(2, 3);
+    let observers = 1 + rng.below(3);
+    let store = Arc::new(if rng.chance(1, 4) { TensorStore::with_bloom_filter(1_000, 0.01) } else { TensorStore::new() });
+    // a few neighbours under the same prefix
+    for i in 0..rng.below(4) {
+        let _ = store.put(format!("{}n{}", class, i), make_value(wid_for(0, i as u64 + 1, Shape::Plain), Shape::Plain));
+    }
+    let stop = Arc::new(AtomicBool::new(false));
+    // counters of the writer's calls: started is bumped before the call, finished after it
+    let put_started = Arc::new(AtomicU64::new(0));
+    let put_finished = Arc::new(AtomicU64::new(0));
+    let del_started = Arc::new(AtomicU64::new(0));
+    let del_finished = Arc::new(AtomicU64::new(0));
+    let barrier = Arc::new(Barrier::new(1 + observers));
+    let cycles = 40 + rng.below(60) as u64;
+    let mut handles = Vec::new();
+    {
+        let (store, stop, barrier, key) = (store.clone(), stop.clone(), barrier.clone(), key.clone());
+        let (ps, pf, ds, df) = (put_started.clone(), put_finished.clone(), del_started.clone(), del_finished.clone());
+        let mut wrng = rng.fork(3);
+        handles.push(std::thread::spawn(move || {
+            barrier.wait();
+            for c in 0..cycles {
+                if stop.load(AO::Relaxed) {
+                    break;
+                }
+                let shape = shapes_for(&key, &mut wrng);
+                let val = make_value_fat(wid_for(1, c + 1, shape), shape, fat);
+                ps.fetch_add(1, AO::SeqCst);
+                let _ = store.put(key.clone(), val);
+                pf.fetch_add(1, AO::SeqCst);
+                if wrng.chance(1, 3) {
+                    // overwrite before deleting
+                    let val = make_value_fat(wid_for(2, c + 1, shape), shape, fat);
+                    ps.fetch_add(1, AO::SeqCst);
+                    let _ = store.put(key.clone(), val);
+                    pf.fetch_add(1, AO::SeqCst);
+                }
+                ds.fetch_add(1, AO::SeqCst);
+                let _ = store.delete(&key);
+                df.fetch_add(1, AO::SeqCst);
+            }
+            stop.store(true, AO::SeqCst);
+            Vec::new()
+        }));
+    }
+    for ob in 0..observers {
+        let (store, stop, barrier, key) = (store.clone(), stop.clone(), barrier.clone(), key.clone());
+        let (ps, pf, ds, df) = (put_started.clone(), put_finished.clone(), del_started.clone(), del_finished.clone());
+        let prefix = class.to_string();
+        let mut orng = rng.fork(10 + ob as u64);
+        handles.push(std::thread::spawn(move || {
+            barrier.wait();
+            let mut out: Vec<(String, String)> = Vec::new();
+            let (mut reads, mut flips) = (0u64, 0u64);
+            let kinds = ["scan", "exists", "get"];
+            // previous read: (kind, present, puts finished / deletes finished before it began)
+            let mut prev: Option<(usize, bool)> = None;
+            let mut before_prev = (0u64, 0u64);
+            while !stop.load(AO::Relaxed) && reads < 200_000 {
+                let kind = orng.below(3);
+                let before = (pf.load(AO::SeqCst), df.load(AO::SeqCst));
+                let present = match kind {
+                    0 => store.scan(&prefix).iter().any(|k| *k == key),
+                    1 => store.exists(&key),
+                    _ => store.get(&key).is_ok(),
+                };
+                let after = (ps.load(AO::SeqCst), ds.load(AO::SeqCst));
+                reads += 1;
+                if let Some((pk, pp)) = prev {
+                    if pp != present {
+                        flips += 1;
+                        // writes that can explain a change between the two reads: invoked before this
+                        // read returned and not finished before the previous read began
+                        let explained = if pp { after.1 > before_prev.1 } else { after.0 > before_prev.0 };
+                        if !explained {
+                            out.push((
+                                format!("visibility:{}-then-{}-disagree-without-a-write-in-between", kinds[pk], kinds[kind]),
+                                format!(
+                                    "key {} (fat values: {}): {} said {} and the next read, {}, said {}, but no {} was in progress or started between the two reads ({} finished before the first read began, {} started when the second returned)",
+                                    key, fat, kinds[pk], if pp { "present" } else { "absent" }, kinds[kind], if present { "present" } else { "absent" },
+                                    if pp { "delete" } else { "put" }, if pp { before_prev.1 } else { before_prev.0 }, if pp { after.1 } else { after.0 }
+                                ),
+                            ));
+                            stop.store(true, AO::SeqCst);
+                            break;
+                        }
+                    }
+                }
+                prev = Some((kind, present));
+                before_prev = before;
+            }
+            out.push(("#stats".into(), format!("{} {}", reads, flips)));
+            out
+        }));
+    }
+    let replay = json!({"part": "visibility", "case_seed": case_seed});
+    let mut reads_total = 0u64;
+    for h in handles {
+        for (sig, d) in h.join().expect("worker") {
+            if sig == "#stats" {
+                let mut it = d.split(' ');
+                let n: u64 = it.next().unwrap().parse().unwrap();
+                reads_total += n;
+                r.count("visibility_reads", n);
+                r.count("visibility_presence_changes_seen", it.next().unwrap().parse().unwrap());
+            } else {
+                r.violation(sig, d, replay.clone());
+            }
+        }
+    }
+    r.count("visibility_rounds", 1);
+    r.eval(hash_combine(case_seed, reads_total ^ 0x7151), true);
+}
+
 /// Engine layered on the store: VectorEngine single-key operations on 1-3 contended keys.
 /// Every stored vector is uniform (all elements = write id), so a torn or mixed read is visible.
 fn engine_round(case_seed: u64, r: &mut Report) {
@@ -832,6 +991,7 @@ fn main() {
                 "engines" => engine_round(s, &mut total),
                 "fresh" => fresh_keys_round(s, &mut total),
                 "bigscan" => bigscan_round(s, &mut total),
+                "visibility" => visibility_round(s, &mut total),
                 "sequential" => sequential_round(s, &mut total),
                 _ => stress_round(s, &mut total, &args),
             }
@@ -870,6 +1030,11 @@ fn main() {
             let rep = par_cases(outer, args.seed ^ 0xB5, n, args.budget(20, 200), |_i, s, r| bigscan_round(s, r));
             total.merge(rep);
         }
+        if part == "all" || part == "visibility" || part == "stress" {
+            let n = args.by_tier(250u64, 10_000u64);
+            let rep = par_cases(outer, args.seed ^ 0x71, n, args.budget(15, 200), |_i, s, r| visibility_round(s, r));
+            total.merge(rep);
+        }
         if part == "all" || part == "sequential" {
             let n = args.by_tier(300u64, 5_000u64);
             let rep = par_cases(2, args.seed ^ 0x99, n, args.budget(20, 120), |_i, s, r| sequential_round(s, r));
@@ -878,7 +1043,7 @@ fn main() {
     }
     let meta = Meta {
         property: "C11",
-        rule: "stress round = one real TensorStore, 2-8 OS threads x 6-19 operations on 1-4 contended keys of classes plain/emb(384-dim slab vector, other dim, none)/node/table/edge/_cache, non-durable or durable (manual / immediate sync), half of the rounds with seeded jitter at the put_durable/delete_durable hook points; every call recorded at the client boundary (atomic tick before and after); values self-describing (write id in every field and vector element). Oracles: value integrity per read, Wing-Gong linearizability per key (scan decomposed per key), recovered-state (latest checkpoint + log; durable rounds take checkpoints concurrently with the writers) == live state after quiescence. Distinct = hash of the observed call order (thread, op, key by call tick); non-trivial = at least two operations of different threads on one key overlapped in time. parked rounds = the deterministic two-writer schedule at put_durable:after_log; sequential rounds = single-thread register semantics; fresh rounds = 3-8 threads creating 4-15 distinct new keys each at the same instant, every key read back at quiescence; bigscan rounds = 1-3 writers toggling pairs of keys that lie >1000 keys apart under one prefix of 2200-3600 passive keys (first key put first and deleted last, every call returning before the next starts) against 1-3 scanners of the whole prefix: a scan must never list the second key of a pair without the first, nor miss a passive key; engine rounds = the same history check on VectorEngine::{store_embedding,get_embedding,delete_embedding,exists} over one shared store.",
+        rule: "stress round = one real TensorStore, 2-8 OS threads x 6-19 operations on 1-4 contended keys of classes plain/emb(384-dim slab vector, other dim, none)/node/table/edge/_cache, non-durable or durable (manual / immediate sync), half of the rounds with seeded jitter at the put_durable/delete_durable hook points; every call recorded at the client boundary (atomic tick before and after); values self-describing (write id in every field and vector element). Oracles: value integrity per read, Wing-Gong linearizability per key (scan decomposed per key), recovered-state (latest checkpoint + log; durable rounds take checkpoints concurrently with the writers) == live state after quiescence. Distinct = hash of the observed call order (thread, op, key by call tick); non-trivial = at least two operations of different threads on one key overlapped in time. parked rounds = the deterministic two-writer schedule at put_durable:after_log; sequential rounds = single-thread register semantics; fresh rounds = 3-8 threads creating 4-15 (on a store with a small Bloom filter: 40-119) distinct new keys each at the same instant, every key read back at quiescence; one stress round in six (non-durable) uses values with 2500 padding fields so that reads fall between the steps of a put; bigscan rounds = 1-3 writers toggling pairs of keys that lie >1000 keys apart under one prefix of 2200-3600 passive keys (first key put first and deleted last, every call returning before the next starts) against 1-3 scanners of the whole prefix: a scan must never list the second key of a pair without the first, nor miss a passive key; visibility rounds = one writer alternating put (two thirds of the rounds with 2500-field values) / delete on one key of class emb/plain/node/cache, 1-3 observers reading its presence through scan, exists and get in sequence: two consecutive reads of one observer may differ only if a put resp. delete was in progress or started between them (writer calls counted before invocation and after return); engine rounds = the same history check on VectorEngine::{store_embedding,get_embedding,delete_embedding,exists} over one shared store.",
         assumptions: vec![
             "the Ok/NotFound result of delete is not judged (Delete is modelled as a blind write); a failed delete records no event".into(),
             "in stress rounds a prefix scan is judged per key (each listed/absent contended key is a read inside the scan's interval); its atomicity across keys is judged in the bigscan rounds, for keys of one class (a prefix spanning several slabs - metadata, entity index, cache ring - is assembled from one atomic listing per slab)".into(),
@@ -887,7 +1052,7 @@ fn main() {
         floors: if args.replay.is_some() || part != "all" {
             vec![("evaluations", 5)]
         } else {
-            vec![("events_recorded", 5_000), ("rounds_with_overlapping_ops", 100), ("key_histories_linearizable", 200), ("parked_at_after_log", 5), ("durable_rounds_recovered", 20), ("durable_rounds_with_concurrent_checkpoint", 10), ("sequential_reads_checked", 500), ("engine_key_histories_linearizable", 100), ("fresh_keys_read_back", 2_000), ("bigscan_scans", 2_000), ("bigscan_scans_that_saw_a_half_done_pair", 20)]
+            vec![("events_recorded", 5_000), ("rounds_with_overlapping_ops", 100), ("key_histories_linearizable", 200), ("parked_at_after_log", 5), ("durable_rounds_recovered", 20), ("durable_rounds_with_concurrent_checkpoint", 10), ("sequential_reads_checked", 500), ("engine_key_histories_linearizable", 100), ("fresh_keys_read_back", 2_000), ("fresh_keys_read_back_through_bloom_filter", 5_000), ("bigscan_scans", 2_000), ("visibility_reads", 20_000), ("visibility_presence_changes_seen", 500), ("bigscan_scans_that_saw_a_half_done_pair", 20)]
         },
         exhaustive: false,
     };
